@@ -10,6 +10,7 @@ import Driver.OpsText
 import Driver.OpsTEI
 import Driver.OpsFPA
 import Driver.OpsMCTS
+import Driver.OpsPTN
 namespace Driver
 
 def handlers : List Handler := [
@@ -25,6 +26,7 @@ def handlers : List Handler := [
   handleTEI,
   handleFPA,
   handleMCTS,
+  handlePTN,
 ]
 
 def step (st : St) (line : String) : St × String :=
